@@ -201,6 +201,9 @@ def cases(tier, seed):
                                 'host-bits-zero': good, 'one-byte': b'\x01'}
                     for nm, pl in variants.items():
                         cs.append({'T': T, 'op': 'crafted', 'conn': conn, 'at': label, 'what': 'ssh1-valid-crc:' + nm, 'hex': wire.ssh1_packet(2, pl).hex()})
+                    # length fields below the SSH-1 minimum (type byte + CRC = 5): nothing of such a packet may be read as a packet
+                    for n in range(0, 5):
+                        cs.append({'T': T, 'op': 'crafted', 'conn': conn, 'at': label, 'what': 'ssh1-length-%d' % n, 'hex': (wire.u32(n) + b'\0' * (8 - n % 8) + b'\x02' * n).hex()})
                 if label not in ('banner', 'vdiff', 'pkm'):
                     t = data[5]
                     crafted = {'empty-payload': wire.u32(12) + bytes([11]) + b'\0' * 11, 'type-only': wire.packet(bytes([t])), 'type-plus-4': wire.packet(bytes([t]) + b'\0\0\0\1'),
